@@ -70,7 +70,14 @@ def _ab(ctx, ext, comp, prefix, gens, trace_module, describe, selftests_a, selft
             objs += o
     summ, mism, _ = ctx.yv(comp, "replay", "--in", path, timeout=1500)
     rp = summ["replay"]
-    for m in mism[:25]:
+    # at most 4 witnesses per kind of disagreement, so that one frequent kind does not hide the others
+    seen, chosen = {}, []
+    for m in mism:
+        kind = json.dumps(sorted({d.get("what", "").split("(")[0] for d in m.get("diff", [])}))
+        seen[kind] = seen.get(kind, 0) + 1
+        if seen[kind] <= 4 and len(chosen) < 40:
+            chosen.append(m)
+    for m in chosen:
         key, what = describe(m)
         ctx.violation("%s:replay:%s" % (prefix, key), what, m)
     trace = ctx.path("%s_trace.ndjson" % comp)
@@ -263,3 +270,45 @@ def fmt_part(ctx):
                    "lc laws; A: every integer of -%d..%d plus boundary values up to 2^31-1 through subscript / superscript (isize, i32, i64, usize), from_parity, sign(), Sign::from (panic iff not +-1), "
                    "every linear combination of <= %d terms over {1, x, y} x {-2..2} through lc, paren_expr on fixed strings; B: seeded calls with wide arguments and with coefficient strings printed by "
                    "the real GaussInt / Ratio types, all Sign operations on all five integer widths") % ((3000, 3000, 3) if ctx.thorough else (300, 300, 2))
+
+
+# ------------------------------------------------------------------------------------------------ Tng / TngComp (C18)
+def tng_part(ctx):
+    ext = _ext(ctx, "Tng")
+    ext["spec"] = "spec/sys/TngM.tla (TngEv.tla, PathOps.tla, MC_TngM, Gen_TngM, Trace_TngM)"
+    _mc(ctx, ext, "MC_TngM", "MC_TngM.thorough.cfg" if ctx.thorough else "MC_TngM.cfg", workers=6, timeout=1700)
+    def describe(m):
+        c = m["case"]
+        last = {k: v for k, v in c["last"].items() if k != "pre"}
+        return ("%s:%s" % (last.get("op"), _h(c["last"])), "Tng %s after %s: %s" % (json.dumps(c["last"]["pre"]), json.dumps(last), json.dumps(m["diff"])[:600]))
+    def bad_out(o):
+        o["out"][0]["edges"][0] += 9
+        return o
+    def bad_find(o):
+        o["find_label"][0] = 0 if o["find_label"][0] != 0 else 1
+        return o
+    def m_append(e):
+        if e["op"] in ("append_arc", "connect") and e["res"] == "ok" and len(e["out"]) >= 2:
+            e["out"][0], e["out"][1] = e["out"][1], e["out"][0]
+            return e
+    def m_counts(e):
+        if e["op"] == "counts" and e["res"] == "ok":
+            e["euler"] += 1
+            return e
+    def m_index(e):
+        if e["op"] == "index_of" and e["res"] == "ok" and e["out"] >= 0:
+            e["out"], e["has"] = -1, False
+            return e
+    objs, rp, rec, ok = _ab(ctx, ext, "tng", "tng", [("Gen_TngM", "Gen_TngM.thorough.cfg" if ctx.thorough else "Gen_TngM.quick.cfg", 4)],
+                            "Trace_TngM", describe,
+                            [("expected component list: a label changed", lambda o: o["last"]["op"] == "append_arc" and len(o["out"]) >= 1, bad_out),
+                             ("expected find_comp answer changed", lambda o: o["last"]["op"] == "connect", bad_find)],
+                            [("listing: first two components swapped", m_append), ("euler number + 1", m_counts), ("index_of: found -> None", m_index)])
+    ext["observations"] = [
+        "append_arc on a tangle that Tng::new was given with arcs still sharing an end label (outside the machine's domain; the builder only creates glued tangles): "
+        "Tng::new([arc 1-2, arc 2-3]).append_arc(arc 3-4) -> %s (remove(j) shifts the index i when j < i; inside the domain j > i always, model-checked)" % json.dumps(rec.get("probe_append_to_unglued_tangle"))]
+    ext["rule"] = ("MC: every tangle reachable on labels 1..%d by append_arc / connect / remove_at, every action; invariants: well formed, sorted (arcs first, by least label), fully glued, "
+                   "appending two arcs commutes, labels are preserved; A: every such tangle x one operation (append_arc, connect + connected, remove_at, convert_edges with an order-reversing "
+                   "relabelling, from_resolved of every V / H crossing): component list up to orientation, comp(i), ncomps, is_empty, is_closed, contains_circle, euler_num, endpts, find_comp "
+                   "(circle / label / connectable), index_of / contains; B: the resolved crossings of random resolutions of random braid closures glued one by one as the complex builder does, "
+                   "and free histories on fresh labels, every event a step of TngM") % (5 if ctx.thorough else 4)
